@@ -72,11 +72,7 @@ fn remove_old_files(dest: &Path, modified: &HashSet<PathBuf>) -> Result<()> {
         .map(|e| e.into_path())
         .filter(|p| p.ext_str() == "rs")
         .filter(|e| !modified.contains(e))
-        .filter(|p| {
-            !fs::read_to_string(&p)
-                .map(|content| content.contains("libninja: static"))
-                .unwrap_or(false)
-        });
+        .filter(|p| !is_static(p));
     for e in to_delete {
         #[cfg(libninja_verif)]
         hir::verif_hook::before_remove();
@@ -84,6 +80,15 @@ fn remove_old_files(dest: &Path, modified: &HashSet<PathBuf>) -> Result<()> {
         eprintln!("{}: Remove unused file.", e.display());
     }
     Ok(())
+}
+
+/// A file that carries the `libninja: static` directive is never touched, whatever its encoding:
+/// the directive is looked for in the file's bytes (a file that is not valid UTF-8 cannot be read as a string).
+fn is_static(path: &Path) -> bool {
+    const DIRECTIVE: &[u8] = b"libninja: static";
+    fs::read(path)
+        .map(|bytes| bytes.windows(DIRECTIVE.len()).any(|w| w == DIRECTIVE))
+        .unwrap_or(false)
 }
 
 fn write_rust(path: &Path, code: impl ToRustCode, modified: &mut Modified) -> std::io::Result<()> {
@@ -99,7 +104,7 @@ fn write_with_content(
 ) -> std::io::Result<()> {
     modified.insert(path.to_path_buf());
     let code = format_code(code.to_rust_code());
-    if content.contains("libninja: static") {
+    if is_static(path) {
         return Ok(());
     } else if content.contains("libninja: after") {
         let (static_content, _gen) = content.split_once("libninja: after").unwrap();
